@@ -534,15 +534,15 @@ def leakWitness : List EChoice :=
   [.poolRet 0 (.fail .provider (.err 1)), .send 0, .recv, .poolRet 1 .ok, .send 1, .poolRet 2 .ok]
 
 /-- a pool goroutine that sends unconditionally: with three pools one of them blocks forever on the full channel -/
-theorem C05_engine_goroutines_exit_counterexample : ¬ C05_engine_goroutines_exit_statement ⟨false⟩ := by
+theorem C05_engine_goroutines_exit_counterexample : ¬ C05_engine_goroutines_exit_statement ⟨false, true⟩ := by
   intro h
   have := h 3 leakWitness 2 .ok (by decide) (by decide)
   revert this
   decide
 
 -- … and there neither the send nor the context case can fire: the goroutine is stuck
-example : estep ⟨false⟩ (erun ⟨false⟩ 3 leakWitness) (.send 2) = erun ⟨false⟩ 3 leakWitness ∧
-    estep ⟨false⟩ (erun ⟨false⟩ 3 leakWitness) (.suppress 2) = erun ⟨false⟩ 3 leakWitness := by decide
+example : estep ⟨false, true⟩ (erun ⟨false, true⟩ 3 leakWitness) (.send 2) = erun ⟨false, true⟩ 3 leakWitness ∧
+    estep ⟨false, true⟩ (erun ⟨false, true⟩ 3 leakWitness) (.suppress 2) = erun ⟨false, true⟩ 3 leakWitness := by decide
 -- the code: the same execution, the third goroutine leaves
 example : (estep EngCfg.code (erun EngCfg.code 3 leakWitness) (.suppress 2)).pools[2]? = some (PoolG.suppressed .ok) := by decide
 -- two clean pools
